@@ -22,7 +22,7 @@ func init() {
 		Explain: "Decides with guard/path rules: the broker worker tests wouldOverflow(msg) before every buffer.add(msg) and waits for space when it holds (C16.check-before-add); wouldOverflow returns true on each of the three limit predicates, expressed as canonical comparisons over the buffer counters and the configuration (C16.limits); the dispatcher rejects a message whose size exceeds MaxMessageBytes instead of handing it on (C16.reject); " +
 			"readyToFlush is true on each configured trigger and false when empty, the output channel is enabled exactly under timerFired ∨ readyToFlush, the flush timer is armed after an add when Frequency > 0 and none is pending, and rollOver resets both (C16.flush). " +
 			"NOT covered: the byte-size estimate versus the real wire size (numeric), timing.",
-		Rules: []func(*Ctx){c16CheckBeforeAdd, c16Limits, c16Reject, c16Flush},
+		Rules: []func(*Ctx){c16CheckBeforeAdd, c16Limits, c16Estimate, c16Reject, c16Flush},
 	})
 }
 
@@ -293,4 +293,42 @@ func c16Flush(c *Ctx) {
 		e3, _ := reg.Escape(StoreTo(p.ResultOf(0, "newProduceSet"), "brokerProducer.buffer"))
 		c.Check(!e1 && !e2 && !e3, rule, fn, "rollover-resets", nil, "rollOver clears timer, timerFired and installs a fresh buffer", "rollOver does not reset timer/timerFired/buffer: stale timerFired flushes single messages forever, or the sent buffer is reused", nil)
 	}
+}
+
+// c16Estimate: the size the limits are tested against is computed from what the message holds NOW.  A message
+// struct may be submitted again with a different payload after it came back on Successes()/Errors(); a size
+// remembered in the message would then let an oversized message through every limit.
+func c16Estimate(c *Ctx) {
+	rule := "C16.limits"
+	fn := c.NeedFn(rule, "ProducerMessage.byteSize")
+	if fn == nil {
+		return
+	}
+	allowed := map[string]bool{"Key": true, "Value": true, "Headers": true}
+	bad := ""
+	var at ssa.Instruction
+	for _, f := range c.P.withHelpers(fn, 2) {
+		if f.Pkg != c.P.Sarama {
+			continue
+		}
+		Info(f).Each(func(it Item) {
+			switch x := it.In.(type) {
+			case *ssa.Store:
+				ch := fieldChain(x.Addr)
+				if len(ch) > 0 && ch[0].owner == "ProducerMessage" {
+					bad, at = "stores into ProducerMessage."+ch[0].name, x
+				}
+			case *ssa.UnOp:
+				if x.Op != token.MUL {
+					return
+				}
+				ch := fieldChain(x.X)
+				if len(ch) > 0 && ch[0].owner == "ProducerMessage" && !allowed[ch[0].name] {
+					bad, at = "reads ProducerMessage."+ch[0].name, x
+				}
+			}
+		})
+	}
+	c.Check(bad == "", rule, fn, "estimate-computed-from-payload", at, "byteSize reads only Key, Value and Headers of the message and stores nothing into it",
+		"ProducerMessage.byteSize "+bad+": the estimate is not recomputed from the current payload (a remembered size survives the reuse of the message struct with a larger payload, which then passes MaxMessageBytes, the batch limit and MaxRequestSize)", nil)
 }
